@@ -572,3 +572,59 @@ func TestVerifC10Prefixes(t *testing.T) {
 		_ = accepted
 	})
 }
+
+// TestVerifC10AllocBound is part 3 of C10, systematically: in a valid encoding
+// of every message type each position in turn is overwritten with a hostile
+// length (0xffff, a 2^32-1 and a 2^64-1 BigSize); decoding must stay below the
+// amplification cap (and satisfy the fixpoint when it succeeds).
+func TestVerifC10AllocBound(t *testing.T) {
+	st := vstats.New("TestVerifC10AllocBound")
+	defer st.Flush()
+
+	hostile := [][]byte{
+		{0xff, 0xff},
+		{0xfe, 0xff, 0xff, 0xff, 0xff},
+		{0xff, 0xff, 0xff, 0xff, 0xff, 0xff, 0xff, 0xff, 0xff},
+		{0xfd, 0xff, 0xff},
+	}
+	rapid.Check(t, func(t *rapid.T) {
+		typ := c10DrawType(t)
+		m, ok := c10GenMessage(t, typ)
+		if !ok {
+			t.Fatalf("type %d has no generator", typ)
+		}
+		if rapid.Bool().Draw(t, "inject") {
+			c10InjectUnknown(t, m)
+		}
+		base, err := c10Write(m)
+		if err != nil {
+			t.Fatalf("%T: %v", m, err)
+		}
+		phase := rapid.IntRange(0, 6).Draw(t, "phase")
+		label := fmt.Sprintf("type=%T", m)
+		for pos := 2; pos < len(base); pos++ {
+			if len(base) > 600 && pos > 300 && pos < len(base)-300 &&
+				pos%7 != phase {
+
+				continue
+			}
+			for _, h := range hostile {
+				if pos+len(h) > len(base) {
+					continue
+				}
+				b := append([]byte(nil), base...)
+				copy(b[pos:], h)
+				// also with everything after the length cut off, the
+				// classic "length without data"
+				for _, in := range [][]byte{b, b[:pos+len(h)]} {
+					ok, _ := c10Fixpoint(t, st, in)
+					st.Case(vstats.FP(in), ok, []string{label,
+						fmt.Sprintf("accepted=%v", ok)}, nil)
+				}
+			}
+		}
+	})
+	if testing.Verbose() {
+		t.Logf("max allocation of one decode: %d bytes", c10MaxAlloc)
+	}
+}
